@@ -95,7 +95,8 @@ def sample_hdi(sample: ndarray, fraction: float) -> ndarray:
     hdi = zeros([2, n_intervals])
     if n_samples > L:
         # find the optimal single HDI
-        widths = s[L:, :] - s[: n_samples - L, :]
+        # (widths in floating point: the differences of a small integer dtype can wrap around)
+        widths = s[L:, :].astype(float) - s[: n_samples - L, :].astype(float)
         i = expand_dims(widths.argmin(axis=0), axis=0)
         hdi[0, :] = take_along_axis(s, i, 0).squeeze()
         hdi[1, :] = take_along_axis(s, i + L, 0).squeeze()
